@@ -449,8 +449,15 @@ def finish(ctx, level="proof"):
     ev = dict(property_id=ctx.prop, tier=ctx.tier, seed=ctx.seed, level=level, coverage=cov,
               assumptions=ctx.assumptions, wall_s=round(time.time() - ctx.t0, 2),
               violations=len(report), known_findings_hit=sorted(printed), notes=ctx.notes)
-    os.makedirs(os.path.join(VERIF, "evidence"), exist_ok=True)
-    json.dump(ev, open(os.path.join(VERIF, "evidence", ctx.prop + ".json"), "w"), indent=1, default=str)
+    if os.path.realpath(REPO) == "/repo":
+        evdir = os.path.join(VERIF, "evidence")
+    else:
+        # a trial against another tree (VERIF_REPO=<worktree with a seeded change>): never overwrite the evidence
+        # of the run against /repo itself
+        evdir = os.path.join(CACHE, "evidence-other-tree")
+        ev["repo"] = REPO
+    os.makedirs(evdir, exist_ok=True)
+    json.dump(ev, open(os.path.join(evdir, ctx.prop + ".json"), "w"), indent=1, default=str)
     ctx.cleanup()
     if report:
         sys.exit(1)
